@@ -11,10 +11,11 @@
    Known finding C17-deep-outline: get_outlines nests First links at most OUTLINE_DEPTH_LIMIT deep,
    so a forest higher than OUTLINE_DEPTH_LIMIT + 1 levels is built correctly but does not read
    back ([too_deep], [C17_too_deep_witness]); the read-back theorems exclude exactly that class. *)
-From LV Require Import Base.Bytes Model.Obj Model.DocQ Model.PageTree Model.Outline Model.Toc Gen.QueryC
+From LV Require Import Base.Bytes Model.Obj Model.DocQ Model.PageTree Gen.Consts Spec.Dfs Proofs.PageTreeProofs.
+From LV Require Import Model.Outline Model.Toc Gen.QueryC
   Spec.OutlineSpec Proofs.OutlineProofs Proofs.OutlineProofsTitle Proofs.OutlineProofsRead
   Proofs.OutlineProofsOps Proofs.OutlineProofsMain Proofs.OutlineProofsReload Proofs.OutlineProofsAdjust
-  Proofs.OutlineProofsForest Proofs.OutlineProofsFull Proofs.OutlineProofsProps.
+  Proofs.OutlineProofsForest Proofs.OutlineProofsFull Proofs.OutlineProofsProps Proofs.OutlineProofsPages.
 
 Local Open Scope N_scope.
 
@@ -203,6 +204,48 @@ Theorem C17_pages_after_reload :
     get_pages d' = get_pages d.
 Proof. exact get_pages_reload. Qed.
 
+(* (7) Page numbers of the ORIGINAL document.  (4) states the page numbers in the document that is
+   read, because get_pages' iteration limit is objects.len(), which the build changes.  On a document
+   whose page tree meets C12's hypotheses (represented tree, distinct nodes, height within the limit)
+   build_outline + attach leave the page enumeration unchanged, so the numbers are the original ones. *)
+Theorem C17_reads_back_original_pages :
+  forall d ops cid rid cat fuel2 pcat i g ks,
+    let b := add_all (fresh_bdoc d) ops in
+    let f := forest_of_ops (map sop_of ops) in
+    let m0 := d_max_id d in
+    f <> [] ->
+    max_id_bounds d ->
+    m0 + 1 + 2 * N.of_nat (OutlineSpec.fsize f) < U32_LIMIT ->
+    Outline.root_id d = Some cid ->
+    get_object_mut_id (d_objects d) cid = Some (rid, ODict cat) ->
+    no_name_trees cat ->
+    distinct_titles f -> scalar_titles f ->
+    too_deep f = false ->
+    (OutlineSpec.fsize f <= fuel2)%nat ->
+    catalog d = Some pcat ->
+    dict_get pcat K_Pages = Some (ORef i g) ->
+    tree_wf d (PNode (i, g) ks) ->
+    (N.of_nat (height (PNode (i, g) ks)) <= PAGE_TREE_DEPTH_LIMIT + 1)%N ->
+    exists b',
+      build_outline (default_fuel b) b = OOk (Some (m0 + 1, 0), b') /\
+      let d2 := attach (base b') cid (m0 + 1, 0) in
+      get_pages d2 = get_pages d /\
+      (targets_are_pages d f -> get_toc fuel2 d2 = TOk (expected_toc d f) 0).
+Proof.
+  intros d ops cid rid cat fuel2 pcat i g ks b f m0 H1 H2 H3 H4 H5 H6 H7 H8 H9 H10 H11 H12 H13 H14.
+  apply (reads_back_ops_wf d ops cid rid cat fuel2 pcat i g ks); try assumption.
+  apply N.ltb_ge. exact H9.
+Qed.
+
+Theorem C17_example_original_pages :
+  catalog OutlineProofsProps.ex_doc = Some OutlineProofsProps.ex_cat /\
+  dict_get OutlineProofsProps.ex_cat K_Pages = Some (ORef 2 0) /\
+  tree_wf OutlineProofsProps.ex_doc ex17_tree /\
+  (N.of_nat (height ex17_tree) <= PAGE_TREE_DEPTH_LIMIT + 1)%N /\
+  get_pages OutlineProofsProps.ex_final = get_pages OutlineProofsProps.ex_doc /\
+  get_pages OutlineProofsProps.ex_doc = [(1, (3, 0)); (2, (4, 0))].
+Proof. exact ex17_wf. Qed.
+
 (* the known class is inhabited and really fails: a chain of 258 bookmarks over a two-page document
    meets every other hypothesis of (4), is built, and get_toc answers Err *)
 Theorem C17_too_deep_witness :
@@ -322,6 +365,8 @@ Print Assumptions C17_reads_back.
 Print Assumptions C17_reads_back_forest.
 Print Assumptions C17_reads_back_after_reload.
 Print Assumptions C17_pages_after_reload.
+Print Assumptions C17_reads_back_original_pages.
+Print Assumptions C17_example_original_pages.
 Print Assumptions C17_too_deep_witness.
 Print Assumptions C17_forest_ids_distinct.
 Print Assumptions C17_forest_height.
